@@ -72,7 +72,8 @@ type Entry struct {
 	Version     Ver      `json:"version"`
 	Dists       string   `json:"dists"`
 	Opts        []KV     `json:"opts"`
-	Body        []string `json:"body"` // change lines without their newline; "" is an empty line inside the body
+	OptSep      string   `json:"opt_sep,omitempty"` // how the options are separated in the header ("" = ", ")
+	Body        []string `json:"body"`              // change lines without their newline; "" is an empty line inside the body
 	BlankBefore int      `json:"blank_before"`
 	BlankAfter  int      `json:"blank_after"`
 	Maint       string   `json:"maint"`
@@ -84,7 +85,11 @@ func (e Entry) header() string {
 	for _, kv := range e.Opts {
 		o = append(o, kv.K+"="+kv.V)
 	}
-	return e.Source + " (" + e.Version.render() + ") " + e.Dists + "; " + strings.Join(o, ", ") + "\n"
+	sep := e.OptSep
+	if sep == "" {
+		sep = ", "
+	}
+	return e.Source + " (" + e.Version.render() + ") " + e.Dists + "; " + strings.Join(o, sep) + "\n"
 }
 
 // changeText is the verbatim text between the header line and the trailer line.
@@ -152,39 +157,74 @@ func (d Doc) Render() (string, Layout) {
 
 // ---- the alternatives of the model --------------------------------------------------------------------------
 
+// The alternatives are chosen so that any "normalisation" of a field (trimming or collapsing blanks, expanding tabs,
+// changing case, Unicode normalisation, splitting on every '=' or '-', moving the time to another zone, dropping
+// seconds) changes at least one of them. Index 0 is the default of the choice tree.
 var (
-	altSource = []string{"hello", "lib-x+1.2"}
-	altDists  = []string{"unstable", "unstable testing"}
-	altOpts   = [][]KV{{{"urgency", "low"}}, {{"urgency", "medium"}, {"binary-only", "yes"}}}
+	altSource = []string{"hello", "lib-x+1.2", "0ad"}
+	altDists  = []string{"unstable", "unstable testing", "UNRELEASED", "bookworm-backports stable-proposed-updates"}
+	altOpts   = [][]KV{
+		{{"urgency", "low"}},
+		{{"urgency", "medium"}, {"binary-only", "yes"}},
+		{{"urgency", "HIGH"}, {"x-note", "Two  Words"}},             // case and interior blanks of a value
+		{{"urgency", "low"}, {"x-expr", "a=b"}, {"closes", "0123"}}, // a value containing '='; leading zero
+	}
+	altOptSep = []string{", ", ","}
 	altBody   = [][]string{
 		{"  * New upstream release."},
 		{"  * First change.", "", "  * Second change; with a semicolon (and parentheses)."},
 		{"  [ Jane Doe ]", "  * A long description of a change that had to be wrapped", "    onto a second line.  Closes: #123456"},
 		{"  * Run foo -- bar to end the options -- twice."},
+		{"  * First paragraph.", "  ", "  * Second paragraph after a line holding only the indentation."}, // whitespace-only separator
+		{"  * A line with a hard break at its end  ", "    and its continuation."},                        // trailing blanks
+		{"  * A line that ends in a tab\t", "  * A last line that ends in one blank "},                    // trailing tab / blank on the last line
+		{"  * Item.", " \t ", "  * Item after a separator of blank, tab, blank."},                         // whitespace-only with a tab
+		{"  * Columns   aligned    with     runs of blanks", "      six blanks of indentation"},           // interior and leading runs
+		{"  * Tabs:", "  \t- a line indented with blanks and a tab", "  * a\tb\t\tc"},                     // tabs
+		{"  * " + strings.Repeat("A very long line. ", 250) + "end"},                                      // > 4096 bytes: longer than bufio's buffer
+		{"  * Größe, naïve café, e\u0301 (decomposed), Ω ≠ Ω, 日本語 ✓", "  * «quoted» — dash"},              // non-ASCII; NFC != NFD
+		{"  -- two blanks, then dashes: not a trailer", "  * -- ", "  --"},                                // near-trailers
 	}
-	altMaint = []string{"Jane Doe <jane@example.org>", "J. R. Hacker-Smith <jr@example.org>"}
-	altDate  = []Date{
+	altMaint = []string{
+		"Jane Doe <jane@example.org>",
+		"J. R. Hacker-Smith <jr@example.org>",
+		"José Ñandú <jose@example.org>",                // non-ASCII
+		"Jane DOE <Jane.Doe@Example.ORG>",              // case
+		"\"Doe, Jane\" (work) <jd+deb@example.org>",    // quotes, comma, parentheses, plus
+		"Team -- of - dashes <team@lists.example.org>", // "--" inside the name
+	}
+	altDate = []Date{
 		{2015, 3, 22, 11, 56, 0, 60},
 		{2014, 11, 6, 23, 3, 40, -300},
 		{2000, 1, 1, 0, 0, 0, 0},
 		{2024, 2, 29, 12, 30, 59, 330},
+		{2019, 12, 31, 23, 59, 59, -480}, // another year in UTC
+		{2021, 6, 15, 0, 0, 1, 840},      // +1400: the previous day in UTC
+		{1999, 7, 4, 4, 5, 6, -210},      // -0330
 	}
 )
 
 // altVersion: alternative a of the version of entry i out of n (revisions descend like in a real changelog, so
 // that the default entries of one changelog differ from each other).
 func altVersion(a, i, n int) Ver {
-	if a == 0 {
+	switch a {
+	case 0:
 		return Ver{0, "1.0", fmt.Sprint(n - i)}
+	case 1:
+		return Ver{1, fmt.Sprintf("2.%d~rc1", n-i), ""}
+	case 2:
+		return Ver{0, "1.0+dfsg~beta2", fmt.Sprintf("0.1~bpo12+%d", n-i)}
 	}
-	return Ver{1, fmt.Sprintf("2.%d~rc1", n-i), ""}
+	return Ver{0, "1.2-3", fmt.Sprint(n - i)} // hyphen inside the upstream part: rendered 1.2-3-<r>
 }
 
+const nVersion = 4
+
 // Pick is one alternative index per entry attribute.
-type Pick struct{ Source, Version, Dists, Opts, Body, Before, After, Maint, Date int }
+type Pick struct{ Source, Version, Dists, Opts, OptSep, Body, Before, After, Maint, Date int }
 
 func mkEntry(p Pick, i, n int) Entry {
-	return Entry{Source: altSource[p.Source], Version: altVersion(p.Version, i, n), Dists: altDists[p.Dists], Opts: altOpts[p.Opts],
+	return Entry{Source: altSource[p.Source], Version: altVersion(p.Version, i, n), Dists: altDists[p.Dists], Opts: altOpts[p.Opts], OptSep: altOptSep[p.OptSep],
 		Body: altBody[p.Body], BlankBefore: 1 + p.Before, BlankAfter: 1 + p.After, Maint: altMaint[p.Maint], Date: altDate[p.Date]}
 }
 
@@ -196,14 +236,16 @@ func mkDoc(ps []Pick, lead int, between []int, trail int) Doc {
 	return d
 }
 
+const longBody = 10 // index of the very long line in altBody (kept out of the per-byte damage scenarios)
+
 // fixedDocs: the multi-entry changelogs whose every prefix / deletion / substitution is explored.
 func fixedDocs() []Doc {
 	return []Doc{
 		mkDoc([]Pick{{}, {Body: 1}}, 0, []int{1}, 0),
-		mkDoc([]Pick{{1, 1, 1, 1, 2, 1, 1, 1, 1}, {Body: 3, Date: 2}}, 0, []int{1}, 0),
-		mkDoc([]Pick{{Body: 1, Date: 3}, {Source: 1, Body: 3, Opts: 1}, {Body: 2, Version: 1, Date: 1}}, 1, []int{2, 1}, 2),
-		mkDoc([]Pick{{Date: 2}, {Date: 3, Dists: 1}, {Maint: 1}}, 0, []int{1, 3}, 0),
-		mkDoc([]Pick{{Body: 3, After: 1}, {Before: 1, Version: 1}}, 2, []int{1}, 1),
-		mkDoc([]Pick{{Body: 2, Opts: 1, Dists: 1}, {Body: 0, Source: 1, Date: 1}, {Body: 1, Maint: 1, Date: 3}}, 0, []int{1, 1}, 0),
+		mkDoc([]Pick{{Source: 1, Version: 1, Dists: 1, Opts: 1, Body: 2, Before: 1, After: 1, Maint: 1, Date: 1}, {Body: 3, Date: 2}}, 0, []int{1}, 0),
+		mkDoc([]Pick{{Body: 4, Date: 3, Maint: 2}, {Source: 1, Body: 5, Opts: 2, OptSep: 1}, {Body: 6, Version: 2, Date: 4}}, 1, []int{2, 1}, 2),
+		mkDoc([]Pick{{Date: 5, Body: 7}, {Date: 6, Dists: 2, Body: 8, Maint: 4}, {Maint: 5, Body: 9, Version: 3}}, 0, []int{1, 3}, 0),
+		mkDoc([]Pick{{Body: 11, After: 1, Opts: 3}, {Before: 1, Version: 1, Body: 12, Dists: 3}}, 2, []int{1}, 1),
+		mkDoc([]Pick{{Body: 2, Opts: 1, Dists: 1}, {Body: 0, Source: 2, Date: 1}, {Body: 1, Maint: 3, Date: 3}}, 0, []int{1, 1}, 0),
 	}
 }
